@@ -61,6 +61,28 @@ def interval(body, op, depth=0):
             return inner or INT_RANGES[cs.gargs[1]]
         if cs.fn == "core::convert::Into::into" and len(cs.gargs) >= 1 and cs.gargs[0] in INT_RANGES and not proj:
             return INT_RANGES[cs.gargs[0]]
+        if cs.fn in ("core::slice::<impl [T]>::len", "core::array::<impl [T; N]>::len") and not proj and cs.args:
+            # length of a slice that is an unsized fixed-size array: `[T; N]` -> N
+            import re as _re
+            seen_l = set()
+            al = op_local(cs.args[0])
+            while al is not None and al not in seen_l:
+                seen_l.add(al)
+                m = _re.search(r"\[[^\[\]]*; (\d+)\]", body.local_ty(al))
+                if m:
+                    return (int(m.group(1)), int(m.group(1)))
+                dd = single_def(body, al)
+                if dd is None or dd[0] != "stmt" or dd[3]["s"] != "assign":
+                    break
+                rv_ = dd[3]["rv"]
+                nxt = rv_.get("op") if rv_["k"] in ("use", "cast") else ({"copy": rv_["place"]} if rv_["k"] == "ref" else None)
+                cc_ = op_const(nxt) if isinstance(nxt, dict) else None
+                if cc_ is not None:
+                    m = _re.search(r"\[[^\[\]]*; (\d+)\]", cc_.get("ty", ""))
+                    if m:
+                        return (int(m.group(1)), int(m.group(1)))
+                    break
+                al = op_local(nxt) if isinstance(nxt, dict) else None
         return INT_RANGES.get(ty) if not proj else None
     rv = x["rv"] if x["s"] == "assign" else None
     if rv is None:
